@@ -312,5 +312,5 @@ def histories(draw, tier="quick"):
 FINDINGS = []
 
 SUBS = [
-    Sub("history", lambda tier: histories(tier), check_history, quick=1600, thorough=6000),
+    Sub("history", lambda tier: histories(tier), check_history, quick=2400, thorough=6000),
 ]
